@@ -592,7 +592,7 @@ class Engine(object):
             return False
         cid = cond.get_id()
         if cid in self.decided:
-            return self.decided[cid]
+            return self.decided[cid][0]
         if self.pos < len(self.prefix):
             take, forked = self.prefix[self.pos]
         else:
@@ -635,9 +635,11 @@ class Engine(object):
             self.prefix.append((take, forked))
             self.nforks += 1
         self.pos += 1
-        self.decided[cid] = take
+        # keep the terms alive: z3 re-uses AST ids after garbage collection
+        self.decided[cid] = (take, cond)
         try:
-            self.decided[z3.simplify(z3.Not(cond)).get_id()] = not take
+            ncond = z3.simplify(z3.Not(cond))
+            self.decided[ncond.get_id()] = (not take, ncond)
         except z3.Z3Exception:
             pass
         self.pc.append(cond if take else z3.Not(cond))
